@@ -142,14 +142,10 @@ def eval_from_u32(f, ename):
     return out
 
 
-def run(ctx, chk):
+def rule_enum1(ctx, chk):
     enums = spirv_enums(ctx)
-    masks = spirv_masks(ctx)
     raw = ctx.raw
     mir = ctx.mir("spirv")
-    chk.trusted += ["rustc macro expansion and type checking", "syn parser", "bitflags 2.x from_bits/bits semantics",
-                    "`v as u32` on a repr(u32) field-less enum yields the declared discriminant (language)"]
-
     R1 = chk.rule("R-ENUM-1", "for every repr(u32) enum: discriminants explicit and unique; from_u32 interpreted as a piecewise "
                   "function over interval patterns returns Some(value n) exactly on the declared discriminants, by transmute of "
                   "the argument (or a literal/variant equal to the single matched value) to the enum itself, and None elsewhere")
@@ -237,6 +233,18 @@ def run(ctx, chk):
     chk.floor(R1, "enums", len(enums), 45)
     chk.floor(R1, "from_u32 arms", n_arms, 359 + 45)
 
+    return n_arms
+
+
+def run(ctx, chk):
+    enums = spirv_enums(ctx)
+    masks = spirv_masks(ctx)
+    raw = ctx.raw
+    mir = ctx.mir("spirv")
+    chk.trusted += ["rustc macro expansion and type checking", "syn parser", "bitflags 2.x from_bits/bits semantics",
+                    "`v as u32` on a repr(u32) field-less enum yields the declared discriminant (language)"]
+
+    n_arms = rule_enum1(ctx, chk)
     R2 = chk.rule("R-ENUM-2", "every Transmute cast and every user-written unsafe block of the spirv crate (type-checked MIR/HIR) "
                   "sits in a from_u32 of an enum covered by R-ENUM-1, with source type u32 and the enum as target")
     ntrans = 0
